@@ -45,7 +45,8 @@ ChartChecks(e, ch) ==
       a == IF fwd THEN birth ELSE InstOf6(e.pj)
       b == IF fwd THEN InstOf6(e.nj) ELSE birth
       \* 23:xx is left open for school 1: the statement does not say which slot that hour counts as
-      open1 == ch.s = 1 /\ (a.sod >= 82800 \/ b.sod >= 82800)
+      \* (when BOTH lie in 23:xx they are in the same slot of their days under either reading, so the offset is determined)
+      open1 == ch.s = 1 /\ ((a.sod >= 82800) # (b.sod >= 82800))
       off == IF ch.s = 2 THEN OffsetSchool2(MinutesBetween(a, b)) ELSE OffsetSchool1(a, b)
       start == StartInstant(birth, << ch.st[1], ch.st[2], ch.st[3], ch.st[4] >>)
       sy == ch.ss[1]
